@@ -38,10 +38,10 @@ ASSUMPTIONS = [
     "inputs are bytes, or str that is valid Unicode text (no lone surrogates)",
 ]
 FLOORS = {
-    "quick": {"monitor:parse.verdict_is_exactly_bool": 200000, "scale:families": 30,
+    "quick": {"monitor:parse.verdict_is_exactly_bool": 200000, "scale:families": 33,
               "bytes:mutants": 100000, "via:str": 1000, "via:file": 200, "long:cases": 400,
               "via:bytearray": 2000, "via:debug": 2000, "oddargs:cases": 15000},
-    "thorough": {"monitor:parse.verdict_is_exactly_bool": 3000000, "scale:families": 30,
+    "thorough": {"monitor:parse.verdict_is_exactly_bool": 3000000, "scale:families": 33,
                  "bytes:mutants": 2000000, "via:str": 10000, "via:file": 1000,
                  "long:cases": 400, "oddargs:cases": 15000, "via:bytearray": 20000,
                  "via:debug": 20000},
